@@ -45,7 +45,7 @@ def build_sdl(desc_i: int, def_i: int, flags: dict) -> str:
         out.append((d("The schema.") if flags["schema_desc"] else "") + f"schema {{ query: {q} mutation: {m} subscription: {s} }}")
     if flags["directive"]:
         rep = " repeatable" if flags["repeatable"] else ""
-        out.append(d(ds) + f"directive @tag(\n{d(ds, '  ')}  name: String! = \"n\"\n  weight: Int{dep_plain}\n){rep} on FIELD_DEFINITION | OBJECT | ARGUMENT_DEFINITION | ENUM_VALUE | INPUT_FIELD_DEFINITION")
+        out.append(d(ds) + f"directive @tag(\n{d(ds, '  ')}  name: String! = \"n\"\n  weight: Int{dep_plain}\n  kind: Color = GREEN\n  at: Date\n  inner: Inner = {{a: 1}}\n){rep} on FIELD_DEFINITION | OBJECT | ARGUMENT_DEFINITION | ENUM_VALUE | INPUT_FIELD_DEFINITION")
     out.append(d(ds) + f"scalar Date" + (' @specifiedBy(url: "https://example.com/date")' if flags["specified"] else ""))
     out.append(d(ds) + f"enum Color {{\n{d(ds, '  ')}  RED\n  GREEN{dep}\n  BLUE\n}}")
     inner = "input Inner { a: Int!, c: Color, inner: Inner, tags: [String!] }"
